@@ -425,6 +425,16 @@ func (w *World) checkCommit(ci *fakepg.CommitInfo) {
 			ps.maxEverNum = ic.num
 		}
 	}
+	if len(insCur) > 0 || nDelCur > 0 {
+		// a recorded position changed: every pair of that source may have new
+		// work now (an integration waits for the positions of the ones it
+		// references), so nobody counts as idle until it has looked again
+		for _, o := range w.pairs {
+			if o.src == ps.src {
+				o.quietRun = 0
+			}
+		}
+	}
 	prevNum := ps.curNum
 	if len(curs) > 0 {
 		ps.curNum, ps.curHash = curs[len(curs)-1].num, curs[len(curs)-1].hash
@@ -604,7 +614,7 @@ func (w *World) checkState(ps *pairState, snap *fakepg.Snapshot, when string) {
 		w.harnessFail("model cannot project %s: %v", ps.key, err)
 		return
 	}
-	if diff := model.DiffMultisets(want, got, 4); len(diff) > 0 {
+	if diff := model.DiffMultisets(want, got, 4); len(diff) > 0 && !ps.lookupsUnreliable {
 		w.violate("state-mismatch", "pair %s (%s): table differs from projection of blocks %d..%d (%d expected, %d stored): %s",
 			ps.key, when, ps.origin, tip.num, len(want), len(got), strings.Join(diff, " ;; "))
 	}
